@@ -194,9 +194,18 @@ func runC02(c *Ctx) {
 	R.Require("E3.cover", 4, "")
 	R.Require("E3.accept", 4, "")
 	R.Require("E1.slice", 8, "")
+	// byte-unstuffing: exactly the well-formed escape sequences are accepted, nothing is dropped
+	R.Rules["T.unescape"] = "unescape implements the inverse byte-stuffing transducer on the interior of a delimited frame (7d 01 -> 7d, 7d 02 -> 7e, other bytes verbatim, a 7d as last interior byte literal), consumes the whole interior on every successful return and fails only for malformed input"
+	if une := c.P.Func("protocol/jt808", "unescape"); une != nil {
+		c.verifyTransducer(une, tdUnescape, "T.unescape")
+	} else {
+		R.Fatal("anchor jt808.unescape not found")
+	}
+	R.Require("T.unescape", 8, "")
 	_ = load.ModPrefix
 	R.Explain = "Header.decode and JTMessage.Decode are interpreted abstractly for arbitrary input. Decided for all byte strings: (a) no panic / over-read (E1), " +
 		"(b) every successful header decode computes each field exactly as the standard's layout prescribes for the version/fragment bits the path admits, needs the full header length, and every error return is justified by a short input, " +
 		"(c) every successful Decode entails delimiters, zero checksum over the whole unescaped payload and the exact length equation, (d) history independence of the header decoder. " +
-		"Not decided: completeness of unescape (that every well-formed frame is accepted) and the escape-pair content rules."
+		"(e) unescape implements the standard's inverse byte-stuffing transducer: every successful return has consumed the whole interior, errors are returned only for a broken envelope or a 7d followed by a byte other than 01/02 inside the frame. " +
+		"Tolerated by design and part of the rule: a 7d that is the last interior byte (unescaped checksum of some devices) is taken literally."
 }
